@@ -10,7 +10,8 @@ import json, os, shutil, subprocess, sys, time
 
 pid, outdir, k = sys.argv[1], sys.argv[2], sys.argv[3]
 props = [pid] + sys.argv[4:]
-work = f"/tmp/seedeval/{pid}-{k}"
+tag = os.environ.get("SEED_TAG", "")
+work = f"/tmp/seedeval/{pid}-{tag}{k}"
 shutil.rmtree(work, ignore_errors=True)
 os.makedirs(work)
 clean, mut = work + "/clean", work + "/mut"
@@ -51,7 +52,7 @@ for p in props:
     print(p, "exit", r.returncode, viol[0] if viol else "", (rep or {}).get("what"))
 meta_in = json.load(open(f"{outdir}/meta.json"))
 ch = meta_in["changes"][int(k) - 1]
-dst = f"/verif/seeded/{pid}-{k}"
+dst = f"/verif/seeded/{pid}-{tag}{k}"
 os.makedirs(dst, exist_ok=True)
 shutil.copy(diff, dst + "/patch.diff")
 shutil.copy(f"{outdir}/demo{k}.py", dst + "/demo.py")
